@@ -88,6 +88,30 @@ class MathShim:
         return core.sym_floor(x) if is_sym(x) else _math.floor(x)
 
     @staticmethod
+    def isclose(a, b, *, rel_tol=1e-09, abs_tol=0.0):
+        if not (is_sym(a) or is_sym(b)):
+            return _math.isclose(a, b, rel_tol=rel_tol, abs_tol=abs_tol)
+        d = abs(a - b)
+        m = core.sym_max([abs(a), abs(b)])
+        return bool(d <= core.sym_max([rel_tol * m, abs_tol]))
+
+    @staticmethod
+    def copysign(x, y):
+        if not (is_sym(x) or is_sym(y)):
+            return _math.copysign(x, y)
+        mag = abs(x)
+        return mag if bool(y >= 0) else -mag
+
+    @staticmethod
+    def fmod(x, y):
+        if not (is_sym(x) or is_sym(y)):
+            return _math.fmod(x, y)
+        if is_sym(y):
+            raise core.Inconclusive("math.fmod with a symbolic modulus")
+        q = core.sym_trunc(x / y)
+        return x - q * y
+
+    @staticmethod
     def ceil(x):
         if not is_sym(x):
             return _math.ceil(x)
